@@ -37,8 +37,8 @@ ASSUMPTIONS = [
     "stays well formed when config false nodes lose their constraints and defaults, e.g. no unique of a config true list "
     "over config false leaves with defaults; evaluated on every case of component configmodel) and fresh vs f; the spec "
     "rfc_valid_config and the model share cfg_view, which keeps the schema tree: both are the intended reading only for "
-    "cfg_ready schemas (no mandatory choice below a config false node; not a hypothesis of the proof, cases outside are "
-    "dropped by configmodel)",
+    "cfg_ready schemas (no mandatory choice below a config false node, no unique statement of a config true list over a "
+    "config false leaf; not a hypothesis of the proof, cases outside are dropped by configmodel)",
     "C02_identityref_all_bases: IdAcyclic (no identity is transitively its own base; the compiler rejects that). "
     "C02_multi_error_first / _verdict and C02_verdict_perm_invariant have no hypothesis",
     "all theorems: the modelled rule set only (no when / must / leafref / instance-identifier, one module); type restrictions "
@@ -115,8 +115,12 @@ MANIFEST = {
             "the correspondence run, no theorem), un-flagged duplicates (refuted theorem; reachable only by manipulating flags "
             "or links directly) and explicit empty non-presence containers (finding empty-np-container-dupcase). (c) OPTIONS: "
             "LYD_VALIDATE_MULTI_ERROR and LYD_VALIDATE_NO_STATE are modelled, NO_STATE for fresh trees only (no history theorem, "
-            "not combined with MULTI_ERROR, schemas with a mandatory choice below a config false node or an ill-formed "
-            "configuration view excluded); OPERATIONAL, NO_DEFAULTS, NOT_FINAL, the validation "
+            "not combined with MULTI_ERROR, schemas with a mandatory choice below a config false node, with a unique of a config true "
+            "list over a config false leaf, or with an ill-formed configuration view excluded = outside cfg_ready. Observed on "
+            "the excluded unique shape (thorough seed 1, list l47 { unique \"lf46\"; leaf lf46 { default; config false } }): with "
+            "NO_STATE libyang does not create the default node of lf46 but lyd_validate_unique still compares its schema default "
+            "(lyd_val_uniq_dflt_in_use) and rejects two entries with data-not-unique, while cfg_view drops the default and "
+            "accepts; not triaged as a defect, the shape is outside the theorem's reading and dropped by configmodel); OPERATIONAL, NO_DEFAULTS, NOT_FINAL, the validation "
             "diff, RPC / notification / extension-data validation, several modules (beyond an imported identity module) are not. "
             "(d) implicit default nodes are not materialised (WithDefaults slice): schemas where a leaf-list has both defaults "
             "and min/max-elements are excluded; the children_ht and the linear path of lyd_validate_duplicates are one model "
